@@ -117,6 +117,11 @@ def programs():
     reg("indexed_unit_operand", {"x": (3, 4, 5), "b": (4, 6), "c": (3, 6)},
         lambda x, b, c: {"o": pt.einsum("ij,ij->ij", x[1, :, 2:3], b), "p": pt.einsum("ij,ij->i", x[:, 2, 4:5], c),
                          "q": pt.einsum("ij,ij->ji", x[0:1, 3, :][:, :4].T[:, 0:1], b), "r": pt.einsum("ij,ij->j", x[2:3, 1, 0:4].T, b)})
+    # Boolean (and integer) operands: bool + bool is a logical OR, not an addition
+    reg("bool_operands", {"x": (2,)},
+        lambda x: (lambda A, b1, b2, m: {"bb": A @ (b1 + b2), "bx": A @ (b1 + x), "mm": A @ (m + m), "bm": A @ (b1 * 2 + m)})(
+            pt.make_placeholder("Ai", (3, 2), np.int64), pt.make_placeholder("b1", (2,), np.bool_),
+            pt.make_placeholder("b2", (2,), np.bool_), pt.make_placeholder("mi", (2,), np.int64)))
     reg("sum_of_three", {"A": (2, 2), "x": (2,), "y": (2,), "z": (2,)}, lambda A, x, y, z: {"o": A @ (x + y + z)})
     # operations on the distribution path that are NOT linear: nothing may be pushed through them
     # (one program per three outputs: every subset of einsums gets its own distribution policy)
@@ -308,16 +313,17 @@ class RewriteOb(SmtOb):
             # (complex inputs: the solver reasons over a commutative field with conj/real/imag uninterpreted, which is
             #  sound for "unsat"; a sat model has real values only, so the replay gives complex inputs a generic
             #  imaginary part)
-            inputs[k] = C.default_data(k, shp, np.dtype(dts.get(k, "float64"))) + 0.0
+            dt_k = np.dtype(dts.get(k, "float64"))
+            inputs[k] = C.default_data(k, shp, dt_k) + 0.0 if dt_k.kind in "fc" else np.array(C.default_data(k, shp, dt_k))
         trials = [dict((k, v.copy()) for k, v in inputs.items())]
         mod = {k: v.copy() for k, v in inputs.items()}
         for key, val in (args.get("model") or {}).items():
             name, idx = key.split("|")
             idx = tuple(int(i) for i in idx.split(",")) if idx else ()
-            if abs(val) < 1e6:
+            if abs(val) < 1e6 and mod[name].dtype.kind in "fc":
                 mod[name][idx] = val
         trials.insert(0, mod)
-        trials.append({k: np.abs(v) + 0.5 for k, v in inputs.items()})
+        trials.append({k: (np.abs(v) + 0.5 if v.dtype.kind == "f" else v) for k, v in inputs.items()})
         for data in trials:
             ev = PtEval(NumAlg(data))
             for k, shape in self.shapes.items():
@@ -381,6 +387,16 @@ def distribute_job(prog: str, seed: int = 0, gen_tier: str = "quick") -> JobOut:
                               "expression": getattr(build, "text", "hand-written"),
                               "encoding": "z3 reals, uninterpreted inputs, x/y as x*inv(y), reductions unrolled"},
                              xcheck=(gen_tier == "thorough")))
+        if any(np.dtype(d).kind not in "fc" for d in info_dt.values()):
+            # the solver's algebra is a field: Boolean / integer operands (bool + bool is OR, casts to int) are outside
+            # it.  Programs with such inputs are evaluated on sample data with NumPy scalars instead (sampling, not a
+            # verdict -- listed under "outside" in the evidence); no SMT obligation is claimed for them.
+            ob_ = obs.pop()
+            try:
+                rep, det = ob_.replay({})
+            except Exception as e:  # noqa: BLE001
+                rep, det = True, f"{type(e).__name__}: {e}"
+            sides.append(Side(f"{prog}/[{label}]/numeric-agreement-on-sample-data", not rep, det))
     return JobOut(obs=obs, sides=sides, info={"policies_declined_as_composed": n_declined})
 
 
@@ -429,6 +445,8 @@ def jobs(tier: str, seed: int):
                    "axis extents": "<= 4 (element indices enumerated, reductions unrolled)",
                    "inputs": "all real values (uninterpreted arrays)"},
         "outside": ["floating-point rounding (identity is over the reals; candidates are replayed numerically)",
+                    "Boolean / integer operands (bool + bool is OR; the field algebra does not apply): program bool_operands is "
+                    "compared on sample data only, per policy",
                     "non-finite values", "programs outside the list"],
         "stubs": ["x / y encoded as x * inv(y), inv uninterpreted", "math functions / pow uninterpreted"],
         "trusted": ["z3 (nonlinear real arithmetic)", "eval_pytato over the real algebra", "NumPy scalars for replay"],
